@@ -1,6 +1,8 @@
 package bloomsearch
 
 import (
+	"log/slog"
+
 	"github.com/bits-and-blooms/bloom/v3"
 )
 
@@ -120,7 +122,7 @@ func H_C01_pruning_is_monotone_in_the_row_verdict() {
 	q := &BloomQuery{Expression: &tree}
 	vpAssume(truth)
 	vpAssert(vpEvalCompiled(c, q), "C01: matcher rejects a row that satisfies the tree")
-	b := &BloomSearchEngine{}
+	b := &BloomSearchEngine{logger: slog.New(slog.DiscardHandler)}
 	f := c.filter
 	if nondetBool() {
 		f = nil // filter absent from the metadata: cannot disqualify
